@@ -1,6 +1,7 @@
 //! layoutmon: allocation layout integrity (C17), builders (C18, and the builder half of C11),
 //! pointer conversions and ZstCache (C19) on the shared monitors (tracking allocator with red
 //! zones, destructor log).
+mod barriers;
 mod builders;
 mod convert;
 mod layouts;
@@ -70,6 +71,7 @@ fn main() {
         "builders" => builders::run(&mut rep, seed, big),
         "convert" => convert::run(&mut rep, seed, big),
         "lifecycle" => lifecycle::run(&mut rep, seed, big),
+        "barriers" => barriers::run(&mut rep, seed, big),
         t => {
             eprintln!("unknown table {}", t);
             std::process::exit(2);
